@@ -1,11 +1,14 @@
 """C40 — bundles and merge directives reproduce the revisions they carry."""
-import base64
 import bz2
 import copy
 import io
+import json
 import os
 import re
+import select
 import shutil
+import signal
+import time
 
 from vf import env, tlc, table, core, world
 from harness import attest_common as ac
@@ -224,8 +227,9 @@ def sections_v4(data):
     head = len(b"# Bazaar revision bundle v4\n#\n")
     secs = {"header": [("raw", i) for i in _alnum_positions(data, 2, head)],
             "bz2-head": [("raw", head + 3)],                           # the block-size digit of 'BZh9'
-            "bz2-body": [("raw", i) for i in range(head + 10, len(data) - 12)],
-            "bz2-tail": [("raw", i) for i in range(len(data) - 8, len(data))]}
+            "bz2-body": [("raw", i) for i in range(head + 10, len(data) - 16)],
+            "bz2-eos": [("raw", i) for i in range(len(data) - 15, len(data) - 9)],     # the end-of-stream marker (bit-aligned)
+            "bz2-tail": [("raw", i) for i in range(len(data) - 4, len(data))]}         # the stream CRC
     raw = bz2.decompress(data[head:])
     kind = None
     for names, off, length in parse_container(raw):
@@ -247,6 +251,52 @@ def tamper_v4(data, raw, head, level, pos):
             return _sub(data, pos)
         return data[:pos] + bytes([data[pos] ^ 0x20]) + data[pos + 1:]
     return data[:head] + bz2.compress(_sub(raw, pos))
+
+
+def guarded(fn, cpu_limit=3.0, wall_limit=300.0):
+    """Run fn() in a forked child and return its (JSON-able) result, or ["hang", ...] when the child burns more than
+    cpu_limit seconds of CPU without finishing (a damaged container can send bzrformats' pack reader into a busy loop that
+    no Python-level watchdog can interrupt).  CPU time, not wall time, so that a loaded machine does not fake a hang."""
+    r, w = os.pipe()
+    pid = os.fork()
+    if pid == 0:
+        code = 0
+        try:
+            os.close(r)
+            os.write(w, json.dumps(fn()).encode())
+        except BaseException as e:      # noqa: BLE001
+            try:
+                os.write(w, json.dumps(["crash", "%s: %s" % (type(e).__name__, str(e)[:200])]).encode())
+            except BaseException:       # noqa: BLE001
+                code = 1
+        finally:
+            os._exit(code)
+    os.close(w)
+    buf, t0, tick = b"", time.time(), os.sysconf("SC_CLK_TCK")
+    try:
+        while True:
+            if select.select([r], [], [], 0.05)[0]:
+                chunk = os.read(r, 1 << 16)
+                if not chunk:
+                    break
+                buf += chunk
+                continue
+            try:
+                with open("/proc/%d/stat" % pid) as f:
+                    st = f.read().rsplit(")", 1)[1].split()
+                cpu = (int(st[11]) + int(st[12])) / tick
+            except (OSError, IndexError, ValueError):
+                cpu = 0.0
+            if cpu > cpu_limit or time.time() - t0 > wall_limit:
+                os.kill(pid, signal.SIGKILL)
+                return ["hang", "no result after %.1f s of CPU" % cpu]
+    finally:
+        os.close(r)
+        os.waitpid(pid, 0)
+    try:
+        return json.loads(buf.decode())
+    except ValueError:
+        return ["crash", "child wrote %r" % buf[:100]]
 
 
 # ----------------------------------------------------------------------------- one history on one source format
@@ -350,9 +400,12 @@ class Job:
             bad = tamper_v4(data, raw, head, *where) if fmt == "4" else _sub(data, where)
             if bad == data:
                 continue
-            res = self.install(bad, base)
-            o["tamper"].append({"section": name, "outcome": self.classify(st, res), "pos": list(where) if fmt == "4" else where,
-                                "detail": res[2] or ""})
+
+            def attempt(bad=bad):
+                res = self.install(bad, base)
+                return [self.classify(st, res), res[2] or ""]
+            outcome, detail = guarded(attempt)
+            o["tamper"].append({"section": name, "outcome": outcome, "pos": list(where) if fmt == "4" else where, "detail": detail})
         return o, info
 
     # ---- merge directives
@@ -439,9 +492,10 @@ class Job:
                     o["written"] = [-1]
                     info["bundle"] = "%s: %s" % (type(e).__name__, str(e)[:160])
             # ---- tampering: the patch, the bundle text
-            if md2.patch is not None:
+            tamper_here = ntamper if (m in merge_combos or m["patch"] and m["bundle"] and m["src"] and m["msg"]) else 0
+            if md2.patch is not None and tamper_here:
                 cand = _alnum_positions(md2.patch, 0, len(md2.patch))
-                for j in range(ntamper):
+                for j in range(tamper_here):
                     pos = rng.choice(cand)
                     t = copy.copy(md2)
                     t.patch = _sub(md2.patch, pos)
@@ -451,9 +505,9 @@ class Job:
                     except Exception as e:          # a patch that cannot even be compared is detected as well
                         o["patchTamper"].append("failed")
                         info.setdefault("patchTamperErrors", []).append(type(e).__name__)
-            if md2.bundle is not None:
+            if md2.bundle is not None and tamper_here:
                 good = None
-                for j in range(ntamper):
+                for j in range(tamper_here):
                     pos = rng.randrange(len(md2.bundle))
                     if not (bytes([md2.bundle[pos]]).isalnum()):
                         continue
@@ -464,15 +518,17 @@ class Job:
                         repo = self.fresh_repo(submit)
                         md2.install_revisions(repo)
                         good = self.state(repo)
-                    repo = self.fresh_repo(submit)
-                    try:
-                        t3.install_revisions(repo)
-                        outcome = "same" if self.state(repo) == good else "changed"
-                        detail = ""
-                    except (KeyboardInterrupt, SystemExit, MemoryError):
-                        raise
-                    except BaseException as e:
-                        outcome, detail = "rejected", type(e).__name__
+
+                    def attempt(t3=t3, good=good):
+                        repo = self.fresh_repo(submit)
+                        try:
+                            t3.install_revisions(repo)
+                            return ["same" if self.state(repo) == good else "changed", ""]
+                        except (KeyboardInterrupt, SystemExit, MemoryError):
+                            raise
+                        except BaseException as e:      # noqa: BLE001
+                            return ["rejected", type(e).__name__]
+                    outcome, detail = guarded(attempt)
                     o["bundleTamper"].append({"section": "base64-text", "outcome": outcome, "pos": pos, "detail": detail})
             # ---- merging by the directive vs merging from the branch
             if do_merge:
@@ -508,6 +564,7 @@ class Job:
 
 def replay_jobs(sub, chunk):
     import logging
+    os.environ["RUST_BACKTRACE"] = "0"
     os.chdir(sub.workdir)              # bundle_data._validate_inventory drops ',,bogus-inv' into the current directory
     logging.getLogger("brz").setLevel(logging.CRITICAL)      # 'Inventory sha hash mismatch' / conflict chatter
     rows = sub.cov.setdefault("_collect", [])
@@ -568,8 +625,8 @@ def signatures(row, law):
             exc = o["outcome"].split(":")[2].strip() if o["outcome"].count(":") >= 2 else "?"
             return ["installs:%s.%s:%s:%s" % (site, stage, exc, feats)]
         if law == "tamper":
-            return sorted({"tamper:%s:%s:accepted-changed" % (site, t["section"]) for t in o["tamper"]
-                           if t["outcome"] not in ("rejected", "same")})
+            return sorted({"tamper:%s:%s:%s" % (site, t["section"], "accepted-changed" if t["outcome"] == "changed" else t["outcome"])
+                           for t in o["tamper"] if t["outcome"] not in ("rejected", "same")})
         return ["%s:%s:%s:%s" % (law, site, "merge" if meta.get("merge") else "linear", feats)]
     md = c["md"]
     combo = "".join(k[0] for k in ("msg", "patch", "bundle", "src") if md[k]) or "-"
@@ -667,10 +724,10 @@ def run(ctx):
     ctx.rng.shuffle(five)
     plans = []          # (hist, pat, exotic, sfmt, all md cases?)
     if ctx.quick:
-        chosen = small + four[:40]
+        chosen = small + four[:30]
         for j, h in enumerate(chosen):
             plans.append((h, j % NPAT, None, SFMTS[j % 2]))
-        for j, h in enumerate(four[40:48]):
+        for j, h in enumerate(four[30:36]):
             plans.append((h, j % NPAT, EXOTIC[1 + j % 2], SFMTS[(j // 2) % 2]))
         ntamper, nmd, nmerge = 2, 2, 1
     else:
@@ -709,7 +766,7 @@ def run(ctx):
              "pack-0.92; every (base, target) x {4, 0.9}; %d directive cases per history x 12 field combinations, %d of them "
              "merged both ways; %d tamper positions per case; non-trivial = more than one carried revision or a carried "
              "merge (bundles), merged directive cases" % (
-                 maxrev, "all graphs <= 3 and a seeded sample of 48 four-revision graphs" if ctx.quick else
+                 maxrev, "all graphs <= 3 and a seeded sample of 36 four-revision graphs" if ctx.quick else
                  "all graphs <= 4 with all six schedules and a seeded sample of 170 five-revision graphs", nmd, nmerge + 1, ntamper))
     ctx.assume("a directive's patch is compared after normalising line endings and trailing blanks (by design); tampering "
                "substitutes alphanumeric bytes only")
